@@ -296,7 +296,7 @@ theorem any_isAny_den (S : Sem) (ms : List Ty) (h : ms.any Ty.isAny = true) (v :
 theorem joinTypes_den (S : Sem) (ts : List Ty) (v : Val) : den S (joinTypes ts) v ↔ denAny S ts v := by
   have key : denAny S (dedupPy (flatList ts)) v ↔ denAny S ts v := by
     rw [dedupPy_den, flatList_den]
-  unfold joinTypes
+  unfold joinTypes joinCore
   split
   · rename_i t heq
     rw [heq] at key
